@@ -177,36 +177,10 @@ def run_fista_converged(p, x0, eps=0.0, lr=None):
 
 
 # ----------------------------------------------------------------------------- known findings
-# The two defects found earlier (hals_nnls cold start 0/0, active_set_nnls rounding residue on the blocking coordinate)
-# were repaired in /repo (5f3eaf7, dadc3ff); their witnesses live in corpus/C13/*.json and run first.
-def clf_fista_signed_sum(f):
-    """fista left its loop through `abs(sum(x - x_new)) < tol * norm_0` on a step whose SIGNED sum cancels while its l1
-    norm is not small: the observed output equals the K-th iterate for some K < n_iter_max (recomputed with the
-    implementation itself, n_iter_max = 1, 2, ...), |sum(y_{K-1} - y_K)| < tol * norm_0 and sum|y_{K-1} - y_K| >= 100 * tol * norm_0"""
-    inp = f["inputs"]
-    if inp.get("call") != "default":
-        return False
-    arr = lambda v: None if v is None else (C.from_jsonable_array(v) if isinstance(v, dict) else np.asarray(v, dtype=float))
-    G, B, obs = arr(inp["UtU"]), arr(inp["UtM"]), arr(f.get("observed"))
-    if obs is None or not finite(obs):
-        return False
-    from tensorly.solvers.nnls import fista
-    l1, l2, tol, nmax = float(inp.get("l1", 0.0)), float(inp.get("l2", 0.0)), 1e-8, 100
-    run = lambda K: np.asarray(fista(B.copy(), G.copy(), n_iter_max=K, sparsity_coef=l1, ridge_coef=l2, tol=0, epsilon=0.0), dtype=float)
-    prev, norm0 = np.zeros_like(B), None
-    for K in range(1, 12):
-        y = run(K)
-        d = prev - y
-        if K == 1:
-            norm0 = abs(float(np.sum(d)))
-        elif abs(float(np.sum(d))) < tol * norm0:
-            # the rule fires here: the observed output must be this iterate, and the l1 step must be far above the threshold
-            return bool(K < nmax and np.allclose(y, obs, rtol=1e-9, atol=1e-12) and float(np.sum(np.abs(d))) >= 100 * tol * norm0)
-        prev = y
-    return False
-
-
-CLASSIFIERS = {"fista_stopped_on_cancelling_signed_sum": clf_fista_signed_sum}
+# The three defects found by this check (hals_nnls cold start 0/0, active_set_nnls rounding residue on the blocking
+# coordinate, fista stopping on the signed sum of the step) were repaired in /repo (5f3eaf7, dadc3ff, f4b2876); their
+# witnesses live in corpus/C13/*.json and run first.
+CLASSIFIERS = {}     # no known finding at present
 
 
 def _load_known_with_own_snippet():
@@ -512,11 +486,27 @@ def run(chk):
             k0 = rng.randrange(r); G[k0, :] = 0; G[:, k0] = 0        # "Column k of U is zero": must raise
         elif kind != "cold" and rng.random() < 0.1 and r > 1:
             k0 = rng.randrange(r); G[k0, :] = 0; G[:, k0] = 0        # zero diagonal without nonzero_rows: row skipped
-        iters = rng.choice([1, 1, 2, 3])
-        tol = rng.choice([0.0, 0.0, 0.5])
+        iters = rng.choice([1, 1, 2, 3, 3])
+        tol = rng.choice([0.0, 0.0, 0.5, 0.5, 0.125, 0.875])      # the stopping rule fires at different passes
         V0 = None if kind == "cold" else dyadic_start(rng, r, n, kind)
         sol = np.zeros((r, n)); impl0 = np.zeros((r, n))
         kw = dict(sparsity_coefficient=l1, ridge_coefficient=l2, nonzero_rows=nz, epsilon=eps)
+        if iters >= 2 and rng.random() < 0.7:
+            # place tol next to an actual ratio rec_error_j / rec_error_0 of this run (observed through the documented callback
+            # in a probe run with tol = 0), 25% above or 20% below: the stopping rule then fires, or just does not fire, at pass j
+            errs = []
+            st_p, _ = C.call_impl(lambda: quiet(hals_nnls, B.copy(), G.copy(), V=None if V0 is None else V0.copy(), n_iter_max=iters, tol=0,
+                                                callback=lambda V_, e_: errs.append(float(e_)), **kw))
+            if st_p == "ok" and len(errs) >= 2 and errs[0] > 0 and all(math.isfinite(e) for e in errs):
+                j = rng.randrange(1, len(errs))
+                ratio = errs[j] / errs[0]
+                t = ratio * (1.25 if rng.random() < 0.6 else 0.8)
+                if t > 1:
+                    t = min(1.0, ratio * 1.05) if ratio < 0.95 else ratio * 0.8
+                t = math.floor(t * 4096) / 4096
+                if 0 < t <= 1 and abs(t - ratio) > 0.02 * ratio:
+                    tol = t
+                    chk.hist("hals_stop_rule", "tol placed next to an observed ratio")
         try:
             if V0 is None:
                 sol = np.linalg.solve(G, B)       # the recorded answer of tl.solve (same LAPACK routine, same input)
@@ -578,16 +568,35 @@ def run(chk):
         K = rng.choice([1, 2, 3, 4, 4, 4])
         nonneg = rng.random() < 0.85
         eps = rng.choice([0.0, 1e-8, 0.25])
-        tol = rng.choice([0.0, 0.0, 0.5])
+        tol = rng.choice([0.0, 0.0, 0.5, 0.5, 0.125, 0.875])      # the stopping rule fires at different iterations
         u = rng.random()
         # lr=None: the code takes 1 / (leading singular value of UtU + 2 ridge); the model receives the same quantity computed
         # from numpy's independent 2-norm (recorded LAPACK answer)
         lr_arg = None if u < 0.4 else (float(Fr(1) / Fr(float(np.linalg.norm(G, 2) + 2 * p["l2"]))) if u < 0.8 else rng.choice([0.125, 0.03125]))
         lr = lr_arg if lr_arg is not None else 1.0 / (float(np.linalg.norm(G, 2)) + 2 * p["l2"])
         x0 = None if rng.random() < 0.4 else dyadic_start(rng, r, n, rng.choice(["dense", "sparse", "infeasible"]))
+        fkw = dict(non_negative=nonneg, sparsity_coef=p["l1"], ridge_coef=p["l2"], lr=lr_arg, epsilon=eps)
+        if K >= 2 and rng.random() < 0.7:
+            # place tol next to an actual ratio norm_j / norm_0 of this run (iterates of probe runs with tol = 0)
+            xs = [np.zeros((r, n)) if x0 is None else x0]
+            okp = True
+            for k in range(1, K + 1):
+                st_p, y = C.call_impl(lambda: fista(B.copy(), G.copy(), x=None if x0 is None else x0.copy(), n_iter_max=k, tol=0, **fkw))
+                okp = okp and st_p == "ok" and finite(y)
+                if not okp:
+                    break
+                xs.append(np.asarray(y, dtype=float))
+            if okp:
+                norms = [float(np.sum(np.abs(xs[k - 1] - xs[k]))) for k in range(1, K + 1)]
+                if norms[0] > 0:
+                    j = rng.randrange(1, K)
+                    ratio = norms[j] / norms[0]
+                    t = math.floor(ratio * (1.25 if rng.random() < 0.6 else 0.8) * 4096) / 4096
+                    if 0 < t <= 1 and abs(t - ratio) > 0.05 * ratio:
+                        tol = t
+                        chk.hist("fista_stop_rule", "tol placed next to an observed ratio")
         try:
-            st, V = impl_call(chk, lambda: fista(B.copy(), G.copy(), x=None if x0 is None else x0.copy(), n_iter_max=K, non_negative=nonneg,
-                                                 sparsity_coef=p["l1"], ridge_coef=p["l2"], lr=lr_arg, tol=tol, epsilon=eps))
+            st, V = impl_call(chk, lambda: fista(B.copy(), G.copy(), x=None if x0 is None else x0.copy(), n_iter_max=K, tol=tol, **fkw))
         except Skip:
             continue
         if st != "ok" or not finite(V):
@@ -684,7 +693,7 @@ def run(chk):
                        "'run to convergence' is a limit statement: proved are monotone descent + fixed point <=> KKT => optimal; that the returned point is an approximate fixed point is measured (CConv)"]
     chk.trusted = ["scipy.optimize.nnls as independent reference (objective value only)",
                    "the sqrt-defined FISTA momentum sequence and the leading singular value (numpy 2-norm) enter the model as recorded data",
-                   "the number of passes / iterations taken before the stopping rule fires is not compared (any prefix iterate of the model is accepted)"]
+                   "stopping decisions: when every decision e < t of the model's run is clear-cut (|e - t| > 1e-6 (|e| + |t|)) the implementation must return the model's result; only borderline decisions (incl. e = t = 0) fall back to accepting any prefix iterate"]
     return chk.finish(CLASSIFIERS)
 
 
